@@ -24,7 +24,8 @@ type guardSite struct {
 	fn   *ssa.Function
 	ins  ssa.Instruction
 	x    ssa.Value // container
-	desc string    // printable form, part of the key
+	desc string    // printable form, part of the key (free of local names)
+	old  string    // legacy description (with local names), only used to migrate exception tables
 	// requirement: one of
 	needLen    int64     // len(x) >= needLen  (constant requirements)
 	idx        ssa.Value // or: 0 <= idx < len(x) (variable index), idx <= len(x) for slice bounds
@@ -323,6 +324,12 @@ func (g *guardEngine) paramMinLen(par *ssa.Parameter, depth int) int64 {
 						return 0
 					}
 					m := g.minLenByConstruction(call.Common().Args[idx], depth+1)
+					// a length test that guards the call in the caller
+					if depth < 2 {
+						if gm := g.guardedMin(guardSite{fn: h, ins: ins, x: call.Common().Args[idx]}, call.Common().Args[idx]); gm > m {
+							m = gm
+						}
+					}
 					if min < 0 || m < min {
 						min = m
 					}
@@ -756,8 +763,24 @@ func (g *guardEngine) sameThroughSlice(a, b ssa.Value) bool {
 // collectSites lists the index/slice sites of f.
 func (g *guardEngine) collectSites(f *ssa.Function, constOnly bool) []guardSite {
 	var out []guardSite
-	add := func(ins ssa.Instruction, x ssa.Value, what string, need int64, idx ssa.Value, bound bool) {
-		out = append(out, guardSite{fn: f, ins: ins, x: x, desc: what, needLen: need, idx: idx, idxIsBound: bound})
+	add := func(ins ssa.Instruction, x ssa.Value, what [2]string, need int64, idx ssa.Value, bound bool) {
+		out = append(out, guardSite{fn: f, ins: ins, x: x, desc: what[0], old: what[1], needLen: need, idx: idx, idxIsBound: bound})
+	}
+	both := func(format string, x ssa.Value, rest ...interface{}) [2]string {
+		// rest may contain an ssa.Value (index expression) or plain values
+		var a1, a2 []interface{}
+		a1 = append(a1, stableDesc(x))
+		a2 = append(a2, describeValue(x))
+		for _, r := range rest {
+			if v, ok := r.(ssa.Value); ok {
+				a1 = append(a1, stableIdx(v))
+				a2 = append(a2, describeIdx(v))
+			} else {
+				a1 = append(a1, r)
+				a2 = append(a2, r)
+			}
+		}
+		return [2]string{fmt.Sprintf(format, a1...), fmt.Sprintf(format, a2...)}
 	}
 	for _, b := range f.Blocks {
 		for _, ins := range b.Instrs {
@@ -775,10 +798,10 @@ func (g *guardEngine) collectSites(f *ssa.Function, constOnly bool) []guardSite 
 					}
 					if k, ok := constInt(bd.v); ok {
 						if k > 0 {
-							add(ins, x.X, fmt.Sprintf("%s[%s=%d]", describeValue(x.X), bd.name, k), k, nil, true)
+							add(ins, x.X, both("%s[%s=%d]", x.X, bd.name, k), k, nil, true)
 						}
 					} else if !constOnly || isLenMinus(bd.v) {
-						add(ins, x.X, fmt.Sprintf("%s[%s=%s]", describeValue(x.X), bd.name, describeIdx(bd.v)), 0, bd.v, true)
+						add(ins, x.X, both("%s[%s=%s]", x.X, bd.name, bd.v), 0, bd.v, true)
 					}
 				}
 			case *ssa.IndexAddr:
@@ -786,18 +809,18 @@ func (g *guardEngine) collectSites(f *ssa.Function, constOnly bool) []guardSite 
 					continue
 				}
 				if k, ok := constInt(x.Index); ok {
-					add(ins, x.X, fmt.Sprintf("%s[%d]", describeValue(x.X), k), k+1, nil, false)
+					add(ins, x.X, both("%s[%d]", x.X, k), k+1, nil, false)
 				} else if !constOnly || isLenMinus(x.Index) {
-					add(ins, x.X, fmt.Sprintf("%s[%s]", describeValue(x.X), describeIdx(x.Index)), 0, x.Index, false)
+					add(ins, x.X, both("%s[%s]", x.X, x.Index), 0, x.Index, false)
 				}
 			case *ssa.Lookup:
 				if _, isMap := x.X.Type().Underlying().(*types.Map); isMap {
 					continue
 				}
 				if k, ok := constInt(x.Index); ok {
-					add(ins, x.X, fmt.Sprintf("%s[%d]", describeValue(x.X), k), k+1, nil, false)
+					add(ins, x.X, both("%s[%d]", x.X, k), k+1, nil, false)
 				} else if !constOnly || isLenMinus(x.Index) {
-					add(ins, x.X, fmt.Sprintf("%s[%s]", describeValue(x.X), describeIdx(x.Index)), 0, x.Index, false)
+					add(ins, x.X, both("%s[%s]", x.X, x.Index), 0, x.Index, false)
 				}
 			case *ssa.Index:
 				// string index (arrays are in range by type for constant indices)
@@ -805,9 +828,9 @@ func (g *guardEngine) collectSites(f *ssa.Function, constOnly bool) []guardSite 
 					continue
 				}
 				if k, ok := constInt(x.Index); ok {
-					add(ins, x.X, fmt.Sprintf("%s[%d]", describeValue(x.X), k), k+1, nil, false)
+					add(ins, x.X, both("%s[%d]", x.X, k), k+1, nil, false)
 				} else if !constOnly || isLenMinus(x.Index) {
-					add(ins, x.X, fmt.Sprintf("%s[%s]", describeValue(x.X), describeIdx(x.Index)), 0, x.Index, false)
+					add(ins, x.X, both("%s[%s]", x.X, x.Index), 0, x.Index, false)
 				}
 			}
 		}
@@ -909,4 +932,70 @@ func (g *guardEngine) ensuredNonEmpty(s guardSite, x ssa.Value) bool {
 		}
 	}
 	return false
+}
+
+// stableDesc describes a value without using the names of locals or parameters, so that
+// the key of an index/slice site survives renames: parameters by position and type, locals
+// by type, fields and callees by their declared names.
+func stableDesc(v ssa.Value) string {
+	switch x := v.(type) {
+	case *ssa.UnOp:
+		if x.Op == token.MUL {
+			if fa, ok := x.X.(*ssa.FieldAddr); ok {
+				T, F := fieldOf(fa.X.Type(), fa.Field)
+				return T + "." + F
+			}
+			return "*" + stableDesc(x.X)
+		}
+	case *ssa.FieldAddr:
+		T, F := fieldOf(x.X.Type(), x.Field)
+		return "&" + T + "." + F
+	case *ssa.Parameter:
+		idx := -1
+		if x.Parent() != nil {
+			for i, p := range x.Parent().Params {
+				if p == x {
+					idx = i
+				}
+			}
+		}
+		return fmt.Sprintf("param#%d %s", idx, typeShort(x.Type()))
+	case *ssa.Const:
+		return x.String()
+	case *ssa.Slice:
+		return stableDesc(x.X) + "[:]"
+	case *ssa.Call:
+		return "call " + x.Call.Value.Name()
+	case *ssa.FreeVar:
+		return "captured " + typeShort(x.Type())
+	case *ssa.Alloc:
+		return "local " + typeShort(x.Type())
+	case *ssa.IndexAddr:
+		return "&" + stableDesc(x.X) + "[…]"
+	case *ssa.Extract:
+		return stableDesc(x.Tuple) + fmt.Sprintf("#%d", x.Index)
+	case *ssa.Phi:
+		return "var " + typeShort(x.Type())
+	case *ssa.MakeSlice:
+		return "make"
+	case *ssa.Lookup:
+		return stableDesc(x.X) + "[…]"
+	}
+	return fmt.Sprintf("%T", v)
+}
+
+func stableIdx(v ssa.Value) string {
+	if sub, ok := v.(*ssa.BinOp); ok {
+		return stableIdx(sub.X) + sub.Op.String() + stableIdx(sub.Y)
+	}
+	if lx := lenArg(v); lx != nil {
+		return "len(" + stableDesc(lx) + ")"
+	}
+	if k, ok := v.(*ssa.Const); ok {
+		return k.Value.String()
+	}
+	if _, ok := v.(*ssa.Phi); ok {
+		return "φ"
+	}
+	return stableDesc(v)
 }
